@@ -91,6 +91,17 @@ def cut {α} : List Nat → List α → List (List α)
   | [], _ => []
   | n :: ns, l => l.take n :: cut ns (l.drop n)
 
+/-- Are the counters in the header of a quicklogger file consistent with the length of the file?  The package's
+reader raises on the short read otherwise (`from_buffer_copy` of too few bytes), i.e. the file does not read back;
+the model's `qlRead` is total and would build `num_messages` chunks whatever the length — with the counters of a
+file two threads wrote into at once that is a recursion of depth 2^32.  The driver therefore evaluates the
+read-back clauses of the Spec only on plausible files and reports the clause as failed on the others. -/
+def qlPlausible (f : List Nat) : Bool :=
+  let n := unle32 ((f.drop 8).take 4)
+  let H := unle32 ((f.drop 12).take 4)
+  let osz := unle32 ((f.drop 16).take 4)
+  decide (qlHdrSize + n * (H + osz) ≤ f.length)
+
 def encOf (c : Case) : Enc :=
   { frame := fun m => ((c.encs.find? (·.1 == m.id)).map (·.2.1)).getD ⟨[], []⟩,
     text := fun m => ((c.encs.find? (·.1 == m.id)).map (·.2.2)).getD [] }
@@ -112,7 +123,8 @@ def bytesCheck (c : Case) (n : Nat) (sel : Nat → Sel) (mf : Nat → List (List
     else if fmt == "ql" then
       let m := (mf i).map (renderQL c.H e)
       (if m == impl then none else some s!"bytes ds={i} ql model-lens={m.map List.length} impl-lens={impl.map List.length}",
-       if qlFilesReadBack c.ndbOff (acc.map e.frame) impl then none else some s!"fail ql_files_read_back ds={i}")
+       if impl.all qlPlausible && qlFilesReadBack c.ndbOff (acc.map e.frame) impl then none
+       else some s!"fail ql_files_read_back ds={i}")
     else if fmt == "json" then
       let m := (mf i).map (renderJson e)
       let implc := impl.map (·.map Char.ofNat)
@@ -166,10 +178,11 @@ def finishF (c : Case) : List String :=
   else if c.fmt == "quicklogger" then
     let m := qlFile c.H parts last
     let corr := if m == c.file then s!"{c.id} CORR ok" else s!"{c.id} CORR diff qlFile model-len={m.length} impl-len={c.file.length}"
-    let corr2 := if (qlRead c.ndbOff c.file).map some == c.rd then []
+    let sane := qlPlausible c.file
+    let corr2 := if (if sane then (qlRead c.ndbOff c.file).map some == c.rd else c.rd.all Option.isNone) then []
                  else [s!"{c.id} CORR diff qlRead model differs from QLReader.load"]
     let prop := if c.exc != "" then s!"fail formatter_raised {c.exc}"
-                else if !rdOk then "fail ql_read_back" else "ok"
+                else if !(sane && rdOk) then "fail ql_read_back" else "ok"
     [corr] ++ corr2 ++ [s!"{c.id} PROP C17 {prop}"]
   else if c.fmt == "json" then
     let js := c.jsons.take (c.part.sum + c.last)
